@@ -240,5 +240,58 @@ class FromUnixFrac(Op):
             return "fractional Unix time %d.%06d is off by %.9f s" % (a[0], a[1], float(got - want))
 
 
+class SinceFrac(Op):
+    """seconds_since_unix_epoch of points with a fractional second, any offset, any representation, concentrated
+    within two days of the epoch (and of the epoch read as wall-clock time in the point's own zone): the whole
+    number of seconds from the epoch to the instant, the fraction dropped toward zero (the reading Props/C18b
+    proves of the code: C18_seconds_since_rat).  Fractions are dyadic, so binary64 holds them exactly."""
+    prop = PROP
+    name = "sincefrac"
+    model = False
+
+    def gen(self, rng, tier, boost):
+        n = (1500 if tier == "quick" else 20000) * boost
+        epoch = T.inst("greg", ("c", 1970, 1, 1, 0, 0, 0, 0, 0))
+        for _ in range(n):
+            m = gens.mode(rng)
+            ep = T.inst(m, ("c", 1970, 1, 1, 0, 0, 0, 0, 0))
+            tzh, tzm = gens.offset(rng)
+            off = 3600 * tzh + 60 * tzm
+            r = rng.random()
+            if r < 0.5:       # between the epoch and the epoch as wall-clock time in this zone, and just outside
+                lo, hi = sorted((0, -off))
+                base = ep + rng.randint(lo - 3, hi + 3)
+            elif r < 0.8:
+                base = ep + rng.randint(-2 * 86400, 2 * 86400)
+            else:
+                base = ep + rng.randint(-10 ** 9, 2 * 10 ** 9)
+            t = T.tp_from_inst(m, base, rng.choice("cow"), tzh, tzm)
+            num = rng.choice([0, 1, 2, 3, 4, 5, 6, 7, 1, 4, 7])
+            yield (m, t, num)          # fraction num/8 of a second
+
+    def line(self, a):
+        return "sincefrac %s %s %d/8" % (a[0], T.tp_str(a[1]), a[2])
+
+    def impl(self, a):
+        import qcommon as Q
+        m, t, num = a
+        set_mode(m)
+        rep, y, aa, b, hh, mi, ss, tzh, tzm = t
+        p = Q.mk_point((rep, y, aa, b, Fraction(hh), Fraction(mi), ss + Fraction(num, 8), tzh, tzm))
+        return str(p.seconds_since_unix_epoch)
+
+    def oracle(self, a, out):
+        m, t, num = a
+        d = T.inst(m, t) + Fraction(num, 8) - T.inst(m, ("c", 1970, 1, 1, 0, 0, 0, 0, 0))
+        want = int(d)          # toward zero
+        if out != str(want):
+            return "seconds_since_unix_epoch of %s + %d/8 s in %s = %s; the instant is %s s from the epoch (whole part %d)" % (
+                T.describe_tp(t), num, m, out, float(d), want)
+
+    def label(self, a):
+        return "sincefrac/%s/%s" % (a[0], "frac" if a[2] else "whole")
+
+
 def ops():
-    return [LocalTZ(), LocalTZFormat(), FromUnix(), Since(), FromUnixFrac()]
+    import strf2ops
+    return [LocalTZ(), LocalTZFormat(), FromUnix(), Since(), SinceFrac(), FromUnixFrac(), strf2ops.UnixQOp()]
